@@ -15,7 +15,7 @@ impl Property for C13 {
         "C13"
     }
     fn rule(&self) -> &'static str {
-        "profile `faults`: total programs with clock rows, both driver types, subset/permuted output layouts (in one case in sixteen a first answer without any entry, to which a later answer adds one), and either a failure plan (call index j counted over all calls the driver sees, constructor = 0, write-only calls included; the error carries a unique id) or a deviation plan (at the output-reading call of a checked row: drop, add, duplicate in place, swap two, substitute another output-capable signal, or a same-named signal of different width). In a third of the cases another iterator over the same TestCase has run before against a driver listing the same outputs in another order. Oracle (metamorphic against the fault-free real run of the same test and script): j = 0 => try_iter returns Err(Driver(e)) with that id; otherwise all items before the failing call are equal and the item whose call failed is Err(Driver(e)) with that id; deviation => that item is an error, earlier items equal, and no later row is produced from the deviating answer; every row statement carries two probe inputs `(P)` reading device outputs, and in the row evaluated right after the deviating call a probe shows what the driver reported for P itself in that call, never another signal's value. Non-trivial: j >= 1, or a deviation on a layout of >= 2 signals; distinct by source + signals + driver + plan."
+        "profile `faults`: total programs with clock rows, both driver types, subset/permuted output layouts (in one case in sixteen a first answer without any entry, to which a later answer adds one), and either a failure plan (call index j counted over all calls the driver sees, constructor = 0, write-only calls included; the error carries a unique id) or a deviation plan (at the output-reading call of a checked row: drop, add, duplicate in place, swap two, substitute another output-capable signal, a same-named signal of different width, or two of the driver's own Signal objects swapped in place so that the entries keep their addresses but name each other's signal). In a third of the cases another iterator over the same TestCase has run before against a driver listing the same outputs in another order. Oracle (metamorphic against the fault-free real run of the same test and script): j = 0 => try_iter returns Err(Driver(e)) with that id; otherwise all items before the failing call are equal and the item whose call failed is Err(Driver(e)) with that id; deviation => that item is an error, earlier items equal, and no later row is produced from the deviating answer; every row statement carries two probe inputs `(P)` reading device outputs, and in the row evaluated right after the deviating call a probe shows what the driver reported for P itself in that call, never another signal's value. Non-trivial: j >= 1, or a deviation on a layout of >= 2 signals; distinct by source + signals + driver + plan."
     }
     fn cases(&self, tier: Tier) -> u64 {
         match tier {
@@ -24,7 +24,7 @@ impl Property for C13 {
         }
     }
     fn required_classes(&self) -> Vec<&'static str> {
-        vec!["fail-at-ctor", "fail-at-checked-row", "fail-at-mid-clock-write", "dev:drop", "dev:add", "dev:duplicate", "dev:swap", "dev:substitute", "dev:rewidth", "overriding-driver", "defaulting-driver", "row-after-deviation-checked", "probe-after-deviation-checked", "first-answer-without-entries", "another-iterator-with-another-layout-ran-before"]
+        vec!["fail-at-ctor", "fail-at-checked-row", "fail-at-mid-clock-write", "dev:drop", "dev:add", "dev:duplicate", "dev:swap", "dev:substitute", "dev:rewidth", "dev:swap-in-place", "overriding-driver", "defaulting-driver", "row-after-deviation-checked", "probe-after-deviation-checked", "first-answer-without-entries", "another-iterator-with-another-layout-ran-before"]
     }
     fn run(&self, s: &Streams) -> CaseOut {
         let mut out = CaseOut::new();
@@ -116,7 +116,14 @@ impl Property for C13 {
             let n = spec.layout.len();
             let outs: Vec<usize> = (0..built.sigs.len()).filter(|i| built.sigs[*i].is_output()).collect();
             let p = if n == 0 { 0 } else { dch.upto(n) };
-            let dev = match if n == 0 { 1 } else { dch.upto(6) } {
+            let dev = match if n == 0 { 1 } else { dch.upto(7) } {
+                6 if n >= 2 => {
+                    let mut q = dch.upto(n);
+                    if q == p {
+                        q = (p + 1) % n;
+                    }
+                    Deviation::SwapInPlace(p, q)
+                }
                 0 => Deviation::Drop(p),
                 1 => Deviation::Add(outs[dch.upto(outs.len())]),
                 2 => Deviation::Duplicate(p),
@@ -143,6 +150,7 @@ impl Property for C13 {
                 Deviation::Swap(..) => "dev:swap",
                 Deviation::Substitute(..) => "dev:substitute",
                 Deviation::Rewidth(_) => "dev:rewidth",
+                Deviation::SwapInPlace(..) => "dev:swap-in-place",
             });
             spec.deviate_at = Some((c, dev));
             render_case(&mut out, &text, &built.sigs, Some(&spec));
